@@ -27,7 +27,7 @@ static uint32_t upd_calls;
 void *st_get_ctx(void *s) { return &the_ctx; }
 void st_update_received(void *p) { upd_calls++; }
 void st_exc3(void *e, void *a, void *b) { } void st_exc2(void *e, void *a) { } void st_exc2u(void *e, uint32_t a) { }
-uint8_t cx_stream[L]; uint32_t cx_stream_len, cx_ret, cx_thrown, cx_calls, cx_exc, cx_kind;
+uint8_t cx_stream[L]; uint32_t cx_stream_len, cx_ret, cx_thrown, cx_calls, cx_exc, cx_kind, cx_cls;
 int main(void)
 {
   static const uint8_t bs[] = "FIX.4.2";
@@ -48,6 +48,8 @@ int main(void)
     if (i == 22) b = 1;
 #elif TPL == 3                    /* 13 arbitrary bytes, then a run of the digit '1' closed by SOH at the end of the stream */
     if (i >= 13) b = (i == L - 1) ? 1 : '1';
+#elif TPL == 4                    /* "8=FIX.4.2|9" (FIXP=11), three arbitrary bytes, SOH: second field's tag and first value byte arbitrary */
+    if (i == 14) b = 1;
 #endif
     vf_stream[i] = b; cx_stream[i] = b;
   }
@@ -59,18 +61,30 @@ int main(void)
   int term_ok = q < len && vf_stream[q] == 1 && nd >= 1;
   uint64_t total = 12 + (uint64_t)nd + 1 + v + 7;
   int wellformed = pre_ok && term_ok && v >= 1 && v <= maxlen && total <= len;
-  int must_accept = wellformed && v <= maxlen - 13 - 7;
-  /* ---- known-finding exclusions (each assumes the complement of one failing input class) ---- */
+  int must_accept = wellformed && v <= maxlen - 13 - 7 && nd <= 9;   /* (zero-padded BodyLength texts of 10+ digits may be refused) */
+  /* ---- input classes of the known findings (each KF_ macro assumes the complement of one class) ---- */
   uint32_t tagd = 0; while (tagd < L && tagd < len && vf_stream[tagd] >= '0' && vf_stream[tagd] <= '9') tagd++;     /* leading digits of the first field */
   uint32_t fl = 0, cur = 0; for (uint32_t i = 0; i < L; i++) if (i < len) { if (vf_stream[i] == 1) cur = 0; else { cur++; if (cur > fl) fl = cur; } }  /* longest SOH-free run */
-#ifdef KF_READER_FIELD_OVERFLOW
-  VF_ASSUME(tagd < 32 && fl < fld);
-#endif
+  int alld = 1; for (uint32_t i = 12; i < L; i++) { if (!(i < len) || vf_stream[i] == 1) break; if (!(vf_stream[i] >= '0' && vf_stream[i] <= '9')) alld = 0; }
+  uint32_t p1 = L; for (uint32_t i = 0; i < L; i++) if (i < len && vf_stream[i] == 1 && p1 == L) p1 = i + 1;         /* start of the second field */
+  int tag2 = p1 + 1 < len && vf_stream[p1] == '9' && vf_stream[p1 + 1] >= '0' && vf_stream[p1 + 1] <= '9';
+  int tag1 = len >= 2 && vf_stream[0] == '8' && tagd >= 2;
+  int cls_nonnum = pre_ok && !alld;                       /* BodyLength text with a non-digit */
+  int cls_wrap = pre_ok && nd > 9;                        /* BodyLength text of 10+ digits (wraps unsigned) */
+  int cls_overflow = tagd >= 32 || fl >= fld;             /* a field text that does not fit tag[32] / val[FIX8_MAX_FLD_LENGTH] */
+  int cls_tagprefix = tag1 || tag2;                       /* first/second tag merely starts with 8 / 9 (e.g. "99=") */
+  cx_cls = (cls_nonnum ? 1 : 0) | (cls_wrap ? 2 : 0) | (cls_overflow ? 4 : 0) | (cls_tagprefix ? 8 : 0);
 #ifdef KF_READER_NONNUMERIC_LEN
-  { int alld = 1; for (uint32_t i = 12; i < L; i++) { if (!(i < len) || vf_stream[i] == 1) break; if (!(vf_stream[i] >= '0' && vf_stream[i] <= '9')) alld = 0; } VF_ASSUME(!pre_ok || alld); }
+  VF_ASSUME(!cls_nonnum);
 #endif
 #ifdef KF_READER_LEN_WRAP
-  VF_ASSUME(!pre_ok || nd <= 9);
+  VF_ASSUME(!cls_wrap);
+#endif
+#ifdef KF_READER_FIELD_OVERFLOW
+  VF_ASSUME(!cls_overflow);
+#endif
+#ifdef KF_READER_TAG_PREFIX
+  VF_ASSUME(!cls_tagprefix);
 #endif
   cx_kind = (pre_ok ? 1 : 0) | (term_ok ? 2 : 0) | (wellformed ? 4 : 0);
   uint32_t r = vf_read(&the_reader, &the_to);
@@ -87,7 +101,7 @@ int main(void)
       VF_ASSERT(vf_stream_pos == total, "C15: exactly the message's bytes were consumed");
       VF_ASSERT(upd_calls == 1, "C15: receipt recorded once");
     }
-#if L >= 23                   /* the shortest message has 23 bytes: below that only the error outcomes are reachable */
+#if L >= 23 && TPL != 3       /* the shortest message has 23 bytes: below that (and for the digit-run template) only the error outcomes are reachable */
     VF_REACH();
 #endif
   } else {
